@@ -72,6 +72,7 @@ type Finding struct {
 
 // Ctx is the run context handed to a check.
 type Ctx struct {
+	WorkerBin string // when set, worker processes are started from this binary (the scheduled one)
 	ID       string
 	Level    string
 	Tier     string
